@@ -267,10 +267,16 @@ func (c *Ctx) add(rule, key string, p token.Pos, verdict, reason string, nontriv
 	c.Obs = append(c.Obs, Obligation{Rule: rule, Key: key, Pos: c.pos(p), Verdict: verdict, Reason: reason, NonTrivial: nontrivial, Config: c.Config})
 }
 
-func (c *Ctx) ok(rule, key string, p token.Pos, reason string)   { c.add(rule, key, p, OK, reason, true) }
-func (c *Ctx) bad(rule, key string, p token.Pos, reason string)  { c.add(rule, key, p, VIOLATION, reason, true) }
-func (c *Ctx) und(rule, key string, p token.Pos, reason string)  { c.add(rule, key, p, UNDECIDED, reason, true) }
-func (c *Ctx) triv(rule, key string, p token.Pos, reason string) { c.add(rule, key, p, OK, reason, false) }
+func (c *Ctx) ok(rule, key string, p token.Pos, reason string) { c.add(rule, key, p, OK, reason, true) }
+func (c *Ctx) bad(rule, key string, p token.Pos, reason string) {
+	c.add(rule, key, p, VIOLATION, reason, true)
+}
+func (c *Ctx) und(rule, key string, p token.Pos, reason string) {
+	c.add(rule, key, p, UNDECIDED, reason, true)
+}
+func (c *Ctx) triv(rule, key string, p token.Pos, reason string) {
+	c.add(rule, key, p, OK, reason, false)
+}
 
 // floor records that rule must have produced at least n obligations; fewer
 // means the rule's anchors no longer match and the run is UNDECIDED.
